@@ -573,7 +573,7 @@ class Folder:
                     return "torch.bool"
                 return "torch.int64"
             try:
-                base_obj = self.fold(node.value) if isinstance(node.value, (ast.Name, ast.Attribute, ast.Call, ast.Subscript)) else None
+                base_obj = self.fold(node.value) if isinstance(node.value, (ast.Name, ast.Attribute, ast.Call, ast.Subscript, ast.BinOp, ast.IfExp)) else None
             except Unfoldable:
                 base_obj = None
             if base_obj is not None and getattr(type(base_obj), "_kv_eval_obj", False) and not node.attr.startswith("__") and hasattr(base_obj, node.attr) and (not callable(getattr(base_obj, node.attr)) or getattr(type(getattr(base_obj, node.attr)), "_kv_eval_obj", False)):
